@@ -204,6 +204,10 @@ def checkDir (g : Geom) (d : Disk) (fat : Array Nat) (ps : List Pending) (sizeCl
         let (c, sz) := effective g ps s
         if isDirSlot s then
           if !inRange g c then a.problem s!"D4-subdir-without-cluster:{p}:{c}"
+          -- a directory whose first cluster already belongs to something visited is reported, not entered
+          -- (on a corrupt medium the directory graph may have cycles: the walk must stay linear)
+          else if a.owned.contains c then a.problem s!"S1-shared-cluster:{c}:{(a.owned.get? c).getD ""}:{p}"
+          else if a.problems.length > 40 then a
           else checkDir g d fat ps sizeClause fuel (.at c) c (match ref with | .fixedRoot => 0 | .at r => if path = "/" then 0 else r) (p ++ "/") a
         else
           let a := { a with filesVisited := a.filesVisited + 1 }
@@ -262,7 +266,7 @@ def showStamp (b : Bytes) (timeOff dateOff : Nat) : String := s!"{rd16 b dateOff
 
 /-- One line per object, in on-disk order, depth first: path, kind, attributes, size, creation
 and write stamps (raw date.time words), FNV-1a digest of the contents. -/
-def dumpDir (g : Geom) (d : Disk) (fat : Array Nat) : (fuel : Nat) → (ref : DirRef) → (path : String) → List String
+def dumpDir (g : Geom) (d : Disk) (fat : Array Nat) (anc : List Nat) : (fuel : Nat) → (ref : DirRef) → (path : String) → List String
   | 0, _, path => [s!"!{path} too-deep"]
   | fuel + 1, ref, path =>
     match dirSlotsT g d fat ref with
@@ -274,7 +278,10 @@ def dumpDir (g : Geom) (d : Disk) (fat : Array Nat) : (fuel : Nat) → (ref : Di
         let c := clusterOf g s
         let stamps := s!"{showStamp s.bytes 14 16} {showStamp s.bytes 22 24}"
         if isDirSlot s then
-          s!"D {p} {attrOf s} {stamps}" :: (if inRange g c then dumpDir g d fat fuel (.at c) (p ++ "/") else [s!"!{p} no-cluster"])
+          s!"D {p} {attrOf s} {stamps}" :: (if !inRange g c then [s!"!{p} no-cluster"]
+            -- a directory that is its own ancestor (corrupt medium): reported, not entered
+            else if anc.contains c then [s!"!{p} cycle"]
+            else dumpDir g d fat (c :: anc) fuel (.at c) (p ++ "/"))
         else
           let body := if c = 0 then (.ok [] : Except String (List Nat)) else chainT g fat c
           match body with
@@ -284,7 +291,7 @@ def dumpDir (g : Geom) (d : Disk) (fat : Array Nat) : (fuel : Nat) → (ref : Di
             let digest := if sizeOf s > 1048576 then s!"big:{cs.length}" else toString (fnv64 (fileBytes g d cs (sizeOf s)))
             [s!"F {p} {attrOf s} {sizeOf s} {stamps} {digest}"]).flatten
 
-def dumpTree (g : Geom) (d : Disk) : List String := dumpDir g d (loadFat g d) 64 (rootRef g) "/"
+def dumpTree (g : Geom) (d : Disk) : List String := dumpDir g d (loadFat g d) [] 64 (rootRef g) "/"
 
 /-- The raw slots of the directory at a path of 11-byte names (for C06's listing oracle). -/
 def findDir (g : Geom) (d : Disk) : (path : List Bytes) → DirRef → Except String DirRef
